@@ -15,7 +15,7 @@ VERS = ["T11", "T12", "T13"]
 def subsets(xs):
     return [list(c) for n in range(1, len(xs) + 1) for c in itertools.combinations(xs, n)]
 
-def mk(cv, sv, cs=None, nos=(), cg=(23, 24), sg=(23, 24), shares=1, scsv=0, edit=None, kind="pair", expect=1):
+def mk(cv, sv, cs=None, nos=(), cg=(23, 24), sg=(23, 24), shares=1, scsv=0, edit=None, kind="pair", expect=1, pre=None):
     cs = list(cs if cs is not None else POOL)
     # nos: per-session operations on the server's enabled set, in order: an id disables the suite, ("+", id) enables it again
     nosops = list(nos)
@@ -41,7 +41,16 @@ def mk(cv, sv, cs=None, nos=(), cg=(23, 24), sg=(23, 24), shares=1, scsv=0, edit
     if scsv: co += " scsv=1"
     so = "ver=%s groups=%s" % (",".join(sv), ",".join(str(g) for g in sg))
     if nosops: so += " nosuites=%s" % ",".join(("+" + hex(o[1])) if isinstance(o, tuple) else hex(o) for o in nosops)
-    L = [SRV, CLI, "new s0 server keys=ks %s" % so, "new c0 client keys=kc %s" % co, "link c0 s0"]
+    L = [SRV, CLI]
+    if pre:
+        # an earlier connection (suite pre["suite"], version pre["ver"]) fills the client's handle R with a session id or a ticket;
+        # the judged connection offers it back to a server whose enabled suites have changed in the meantime
+        how = pre["how"]
+        L[0] = SRV + (" tickets=1" if how == "ticket" else "")
+        L += ["new s9 server keys=ks ver=%s" % pre["ver"], "new c9 client keys=kc ver=%s suites=%s sid=R%s" % (pre["ver"], hex(pre["suite"]), " tick=1" if how == "ticket" else ""),
+              "link c9 s9", "pump c9 s9 max=60", "send c9 3", "pump c9 s9 max=8", "close c9", "pump c9 s9 max=8", "del c9", "del s9"]
+        co += " sid=R" + (" tick=1" if how == "ticket" else "")
+    L += ["new s0 server keys=ks %s" % so, "new c0 client keys=kc %s" % co, "link c0 s0"]
     if edit is None:
         L += ["pump c0 s0 max=60"]
     else:
@@ -82,6 +91,12 @@ def episodes(tier, seed):
                     if tier == "quick" and rnd.random() > 0.3: continue
                     E.append(mk(cv, sv, cs=[b], nos=ops, kind="suites-reenable"))
                     E.append(mk(cv, sv, cs=[b, a], nos=ops, kind="suites-reenable"))
+    # resumption offered to a server that has disabled the session's suite since: the suite in force must still be enabled by both
+    for how in ("id", "ticket"):
+        for ver, a, b in (("T12", 0x2f, 0xc02f), ("T12", 0xc02f, 0x3c), ("T12", 0x3c, 0x2f), ("T11", 0x2f, 0xc013), ("T11", 0xc013, 0x2f)):
+            for nos in ([a], [b, a, ("+", b)], [a, b, ("+", a), a]):
+                E.append(mk([ver], [ver], cs=[a, b], nos=nos, kind="resume-disabled", pre=dict(how=how, ver=ver, suite=a)))
+                E.append(mk([ver], VERS, cs=[a, b], nos=nos, kind="resume-disabled", pre=dict(how=how, ver=ver, suite=a)))
     # groups / HelloRetryRequest
     for cg, shares, sg in (((23, 24), 1, (24,)), ((24, 23), 1, (23,)), ((23,), 1, (24,)), ((24,), 1, (23, 24)), ((23, 24), 2, (24, 23)), ((23, 24), 0, (23,))):
         E.append(mk(VERS, VERS, cg=cg, shares=shares, sg=sg, kind="groups"))
